@@ -321,10 +321,18 @@ def r5_no_one_shot_iterators_kept(ctx, res):
         raise AnalysisError(f'only {n} attribute assignments examined')
 
 
+def r6_output_independent_of_locale(ctx, res):
+    """the bytes dump()/export() write are a function of the data and the arguments - not of the process locale: data files are
+    opened with an explicit UTF-8 encoding (analysis of C02-R9)."""
+    from .c02 import text_files_name_their_encoding
+    text_files_name_their_encoding(ctx, res, prefix='locale-independent')
+
+
 RULES = [
     ('C16-R1', r1_ont, 300),
     ('C16-R2', r2_no_hidden_state, 300),
     ('C16-R3', r3_memo_purity, 1),
     ('C16-R4', r4_no_shared_objects, 4),
     ('C16-R5', r5_no_one_shot_iterators_kept, 40),
+    ('C16-R6', r6_output_independent_of_locale, 6),
 ]
